@@ -73,7 +73,7 @@ def _c01_suite(rep, suite):
     def run(ctx):
         W = World()
         sk = SymZ.var("sk")
-        m = SymBytes.var("m", 0, 4)
+        m = SymBytes.var("m", 0, 300)
         with world.patched(cs, **W.bindings()):
             try:
                 pk = S.SkToPk(sk)
@@ -142,7 +142,7 @@ for _s in SUITES:
             _c01_suite(rep, s)
         return f
     obligation("C01", "sign_verify_%s" % _s, timeout=900,
-               bound="EVERY integer sk (in range => verifies, out of range => ValidationError), every message (content opaque to the model, |m| <= 4 symbolic)")(_mk(_s))
+               bound="EVERY integer sk (in range => verifies, out of range => ValidationError), every message (content opaque to the model, length symbolic 0..300)")(_mk(_s))
 
 
 @obligation("C01", "pop_prove_verify", timeout=900, bound="every integer sk; PopVerify(SkToPk(sk), PopProve(sk))")
@@ -235,7 +235,7 @@ def _c02(rep, suite, which):
 
     def run(ctx):
         W = World()
-        m = SymBytes.var("m", 0, 4)
+        m = SymBytes.var("m", 0, 300)
         sig = SymBytes.var("sig", length=96)
         with world.patched(cs, **W.bindings()):
             sk, pk = honest_key(S, W)
@@ -318,7 +318,7 @@ def c02_corollaries(rep, tier):
 
     def other_key(ctx, W):
         sk, pk, sk2 = two_keys(ctx, W, Basic)
-        m = SymBytes.var("m", 0, 4)
+        m = SymBytes.var("m", 0, 300)
         sig = Basic.Sign(sk2, m)
         h = W.hash_calls[-1][3]
         prime_lemma(ctx, h, sk2.t - sk.t, rep)
@@ -327,7 +327,7 @@ def c02_corollaries(rep, tier):
 
     def other_message(ctx, W):
         sk, pk = honest_key(Basic, W)
-        m1, m2 = SymBytes.var("m1", 0, 4), SymBytes.var("m2", 0, 4)
+        m1, m2 = SymBytes.var("m1", 0, 300), SymBytes.var("m2", 0, 300)
         ctx.assume(m1.t != m2.t)
         sig = Basic.Sign(sk, m1)
         h1 = W.hash_calls[-1][3]
@@ -339,7 +339,7 @@ def c02_corollaries(rep, tier):
     def other_message_run(ctx, W):
         # lemma must be in place before the final comparison: pre-register both hash values
         sk, pk = honest_key(Basic, W)
-        m1, m2 = SymBytes.var("m1", 0, 4), SymBytes.var("m2", 0, 4)
+        m1, m2 = SymBytes.var("m1", 0, 300), SymBytes.var("m2", 0, 300)
         ctx.assume(m1.t != m2.t)
         h1 = W.hash_to_G2(m1, Basic.DST, Basic.xmd_hash_function).k
         h2 = W.hash_to_G2(m2, Basic.DST, Basic.xmd_hash_function).k
@@ -350,7 +350,7 @@ def c02_corollaries(rep, tier):
 
     def other_suite(ctx, W):
         sk, pk = honest_key(Basic, W)
-        m = SymBytes.var("m", 0, 4)
+        m = SymBytes.var("m", 0, 300)
         h1 = W.hash_to_G2(m, Basic.DST, Basic.xmd_hash_function).k
         h2 = W.hash_to_G2(m, Pop.DST, Pop.xmd_hash_function).k
         prime_lemma(ctx, h1 - h2, sk.t, rep)
@@ -378,7 +378,7 @@ def c02_corollaries(rep, tier):
 
     def aug_without_prefix(ctx, W):
         sk, pk = honest_key(Aug, W)
-        m = SymBytes.var("m", 0, 4)
+        m = SymBytes.var("m", 0, 300)
         h1 = W.hash_to_G2(pk + m, Aug.DST, Aug.xmd_hash_function).k
         h2 = W.hash_to_G2(pk + (pk + m), Aug.DST, Aug.xmd_hash_function).k
         prime_lemma(ctx, h1 - h2, sk.t, rep)
@@ -392,7 +392,7 @@ def c02_corollaries(rep, tier):
     def variant(kind):
         def f(ctx, W):
             sk, pk = honest_key(Basic, W)
-            m = SymBytes.var("m", 0, 4)
+            m = SymBytes.var("m", 0, 300)
             H = W.hash_to_G2(m, Basic.DST, Basic.xmd_hash_function)
             prime_lemma(ctx, H.k, sk.t, rep)
             S_pt = W.multiply(H, sk)
@@ -434,7 +434,7 @@ def c09_outputs(rep, tier):
         def run(ctx, S=S, suite=suite):
             W = World()
             sk = SymZ.var("sk", 1, r - 1)
-            m = SymBytes.var("m", 0, 4)
+            m = SymBytes.var("m", 0, 300)
             with world.patched(cs, **W.bindings()):
                 pk = S.SkToPk(sk)
                 n0 = len(W.hash_calls)
@@ -607,12 +607,12 @@ def _agg_verify(rep, suite, n, fast=False):
                 sks.append(sk)
                 pks.append(pk)
             if fast:
-                m = SymBytes.var("m", 0, 4)
+                m = SymBytes.var("m", 0, 300)
                 msgs = [m] * n
                 H = [W.hash_to_G2(m, S.DST, S.xmd_hash_function)] * n
                 res = S.FastAggregateVerify(pks, m, sig)
             else:
-                msgs = [SymBytes.var("m%d" % i, 0, 4) for i in range(n)]
+                msgs = [SymBytes.var("m%d" % i, 0, 300) for i in range(n)]
                 eff = [(pks[i] + msgs[i]) if suite == "G2MessageAugmentation" else msgs[i] for i in range(n)]
                 H = [W.hash_to_G2(eff[i], S.DST, S.xmd_hash_function) for i in range(n)]
                 res = S.AggregateVerify(pks, msgs, sig)
@@ -677,7 +677,7 @@ def c03_preconditions(rep, tier):
             sig = SymBytes.var("sig", length=96)
             with world.patched(cs, **W.bindings()):
                 sk, pk = honest_key(S, W)
-                m = SymBytes.var("m", 0, 4)
+                m = SymBytes.var("m", 0, 300)
                 outs = [bool(S.AggregateVerify([], [], sig)), bool(S.AggregateVerify([pk], [], sig)), bool(S.AggregateVerify([pk], [m, m], sig)),
                         bool(S.AggregateVerify([pk, pk], [m], sig))]
                 if hasattr(S, "FastAggregateVerify"):
@@ -717,7 +717,7 @@ def _c04_run(rep, name, call, n_keys, with_sig, tag, replay_kind="bls_total"):
         W = World()
         pks = [SymBytes.var("pk%d" % i, 0, 200) for i in range(n_keys)]
         sig = SymBytes.var("sig", 0, 200) if with_sig else None
-        msgs = [SymBytes.var("m%d" % i, 0, 4) for i in range(max(n_keys, 1))]
+        msgs = [SymBytes.var("m%d" % i, 0, 300) for i in range(max(n_keys, 1))]
         with world.patched(cs, **W.bindings()):
             res = call(cs, pks, msgs, sig)
             isb = isinstance(res, (bool, SymBool))
